@@ -50,8 +50,8 @@ type hcase struct {
 
 func (k *hcase) line() string {
 	var b strings.Builder
-	fmt.Fprintf(&b, "c10 run frag=%d rate=%d disk=%s path=%s token=%s sps=%s pps=%s ascraw=%s", k.frag, k.rate, B01(k.disk),
-		Hx([]byte(k.path)), Hx([]byte(k.token)), Hx(k.sps), Hx(k.pps), Hx(k.ascraw))
+	fmt.Fprintf(&b, "c10 run frag=%d rate=%d disk=%s wire=%s path=%s token=%s sps=%s pps=%s ascraw=%s", k.frag, k.rate, B01(k.disk),
+		B01(strings.HasPrefix(k.tag, "wire")), Hx([]byte(k.path)), Hx([]byte(k.token)), Hx(k.sps), Hx(k.pps), Hx(k.ascraw))
 	for _, e := range k.evs {
 		switch e.kind {
 		case 'v':
@@ -85,6 +85,10 @@ func parseCase(l string) *hcase {
 				k.rate, _ = strconv.Atoi(kv[1])
 			case "disk":
 				k.disk = kv[1] == "1"
+			case "wire":
+				if kv[1] == "1" {
+					k.tag = "wire-corpus"
+				}
 			case "path":
 				k.path = string(Unhx(kv[1]))
 			case "token":
@@ -573,9 +577,13 @@ func run(c *Ctx) {
 		for _, d := range []int64{8998, 8999, 9000, 9001, 4500, 1} {
 			cases = append(cases, shortCase(c, d))
 		}
-		n := c.Budget(300, 6000)
+		n := c.Budget(300, 4000)
 		for i := 0; i < n; i++ {
 			cases = append(cases, genCase(c))
+		}
+		nw := c.Budget(8, 60)
+		for i := 0; i < nw; i++ {
+			cases = append(cases, genWireCase(c))
 		}
 	}
 	c.Res.Rule = "case = one HLS session: fragment length, audio rate, storage mode (memory/disk), path, token, SPS/PPS/ASC and a time-ordered list of video NAL units " +
@@ -593,7 +601,11 @@ func run(c *Ctx) {
 		go func() {
 			defer func() { <-sem; wg.Done() }()
 			in := k.line()
-			results[i] = runImpl(k, in)
+			if strings.HasPrefix(k.tag, "wire") {
+				results[i] = runWire(k, in)
+			} else {
+				results[i] = runImpl(k, in)
+			}
 			// driver line: inputs (without client actions: they are in the observation tokens), then observations in order
 			var b strings.Builder
 			fmt.Fprintf(&b, "c10 run frag=%d rate=%d path=%s token=%s sps=%s pps=%s asc=%s", k.frag, k.rate,
